@@ -3,7 +3,7 @@ CONSTANTS
   Sids <- SidsA
   ModelSessions = {1, 2}
   Classes <- Classes12
-  Cfgs <- CfgsA
+  Cfgs <- CfgsAq
   ProbeLens <- Lens1235
   Dev_MaskBit7 = FALSE
   Dev_ShortLens = FALSE
